@@ -387,14 +387,14 @@ PROPS["C17"] = dict(
 
 PROPS["C10"] = dict(
     title="Cancel ends both sides and never leaves a partial file",
-    module="Cfdp.Props.C10r",
+    module="Cfdp.Props.C10s",
     namespace="Cfdp.Loop",
     theorems=["C10_no_partial", "C10_cancel_freezes", "Cfdp.Recv.C10_recv_cancel", "Cfdp.Recv.C10_recv_peer_cancel",
               "Cfdp.Recv.C10_recv_cancel_ends", "Cfdp.Send.C10_send_cancel", "Cfdp.Send.C10_send_cancel_ends",
               "Cfdp.Net.C10_two_party_sender_cancel", "Cfdp.Net.C10_two_party_receiver_cancel",
               "C10_lost_cancel_eof_round", "C10_lost_cancel_finished_round",
               "C10_cancel_eof_repeated", "C10_lost_cancel_eofs_round", "C10_lost_cancel_finisheds_round",
-              "C10_cancel_then_lost_eofs", "C10_peer_cancel_then_lost_finisheds"],
+              "C10_cancel_then_lost_eofs", "C10_peer_cancel_then_lost_finisheds", "C10_recv_cancel_then_lost_finisheds"],
     engines=["recv", "send", "daemon"],
     design="§6 C10",
     technique="Lean 4 proofs over the receiver / sender models and the task-loop step (filestore frame + cancel handshake steps), composed through both models and the link for a cancel at either entity + differential correspondence",
@@ -406,7 +406,7 @@ PROPS["C10"] = dict(
                 "an EOF with an error condition cancels the receiver with that condition (C10_recv_peer_cancel); the cancelled receiver ends on ACK(Finished) or by Abandon "
                 "at the positive-ACK limit (C10_recv_cancel_ends); a user cancel at the sender = Cancelled phase and an EOF with condition CancelReceived and the sender's "
                 "entity id as fault location queued (C10_send_cancel), transmitted when the link is free, and the sender ends by Abandon at the ACK / inactivity limit "
-                "(C10_send_cancel_ends). Bounded time of those ends: C17 + C03. The two-party statement is a theorem over the composition of both models and the link (Model/Net.lean; Props/C10n.lean, Props/C10o.lean): in acknowledged mode, from ANY pair of live states - whatever history of the transfer led to them, whatever is still in flight - the handshake over a link that loses nothing from the cancel on (sender: Cancel.request, EOF(cancel) transmitted and delivered, ACK(EOF) and Finished transmitted, Finished delivered, ACK(Finished) transmitted and delivered; receiver: Cancel.request, Finished transmitted and delivered, ACK(Finished) transmitted and delivered) ends BOTH transactions, both with condition CancelReceived, both users get a Finished indication carrying it, and the receiver's filestore is as it was when the cancel took effect (C10_two_party_sender_cancel, C10_two_party_receiver_cancel; eight step lemmas, one per loop iteration of the handshake). Under a single loss (Props/C10p.lean): a lost EOF(cancel) is repeated by the cancelled sender's positive-ACK timer and cancels the receiver when it arrives (cancel_eof_timer_resends, C10_lost_cancel_eof_round); a lost Finished PDU of a cancelled receiver - or a lost ACK of it - is repeated by the receiver's positive-ACK timer, ends the sender, and the sender's ACK ends the receiver (cancelled_timer_resends, C10_lost_cancel_finished_round). Under repeated loss (Props/C02z.lean) the expiries concatenate as long as the clock keeps the counters below their limits (FairT; the limits are derived from it): the cancelled sender transmits that same EOF(cancel) after every expiry and stays cancelled and waiting (C10_cancel_eof_repeated), whichever retransmission gets through cancels the receiver (C10_lost_cancel_eofs_round); the cancelled receiver transmits that same Finished PDU after every expiry, whichever gets through ends the sender with the cancel condition, whose ACK ends the receiver (C10_lost_cancel_finisheds_round). How a sender gets there is a theorem too (Props/C10q.lean): the user's Cancel.request and the transmission that follows put any live acknowledged sender in the loop's starting state - Cancelled, the EOF(cancel) out and kept, the positive-ACK counter running from zero, the inactivity counter stopped (cancel_enters_wait) - so: Cancel.request, the EOF(cancel) lost up to limit-1 times, and whichever retransmission arrives cancels the receiver with CancelReceived (C10_cancel_then_lost_eofs). And on the receiving side (Props/C10r.lean): the EOF(cancel) and the two transmissions that follow - the ACK of it, the Finished PDU carrying the cancel condition - put any live acknowledged receiver with no delayed check pending in the starting state of the Finished retransmission loop (cancel_eof_state, peer_cancel_enters_wait), so the Finished PDU or its ACK lost up to limit-1 times still ends both transactions with the cancel condition (C10_peer_cancel_then_lost_finisheds). At the limit the transactions end by C10_send_cancel_ends / C10_recv_cancel_ends. Tie to the code: recv/send engines with cancel injected before/after every PDU."),
+                "(C10_send_cancel_ends). Bounded time of those ends: C17 + C03. The two-party statement is a theorem over the composition of both models and the link (Model/Net.lean; Props/C10n.lean, Props/C10o.lean): in acknowledged mode, from ANY pair of live states - whatever history of the transfer led to them, whatever is still in flight - the handshake over a link that loses nothing from the cancel on (sender: Cancel.request, EOF(cancel) transmitted and delivered, ACK(EOF) and Finished transmitted, Finished delivered, ACK(Finished) transmitted and delivered; receiver: Cancel.request, Finished transmitted and delivered, ACK(Finished) transmitted and delivered) ends BOTH transactions, both with condition CancelReceived, both users get a Finished indication carrying it, and the receiver's filestore is as it was when the cancel took effect (C10_two_party_sender_cancel, C10_two_party_receiver_cancel; eight step lemmas, one per loop iteration of the handshake). Under a single loss (Props/C10p.lean): a lost EOF(cancel) is repeated by the cancelled sender's positive-ACK timer and cancels the receiver when it arrives (cancel_eof_timer_resends, C10_lost_cancel_eof_round); a lost Finished PDU of a cancelled receiver - or a lost ACK of it - is repeated by the receiver's positive-ACK timer, ends the sender, and the sender's ACK ends the receiver (cancelled_timer_resends, C10_lost_cancel_finished_round). Under repeated loss (Props/C02z.lean) the expiries concatenate as long as the clock keeps the counters below their limits (FairT; the limits are derived from it): the cancelled sender transmits that same EOF(cancel) after every expiry and stays cancelled and waiting (C10_cancel_eof_repeated), whichever retransmission gets through cancels the receiver (C10_lost_cancel_eofs_round); the cancelled receiver transmits that same Finished PDU after every expiry, whichever gets through ends the sender with the cancel condition, whose ACK ends the receiver (C10_lost_cancel_finisheds_round). How a sender gets there is a theorem too (Props/C10q.lean): the user's Cancel.request and the transmission that follows put any live acknowledged sender in the loop's starting state - Cancelled, the EOF(cancel) out and kept, the positive-ACK counter running from zero, the inactivity counter stopped (cancel_enters_wait) - so: Cancel.request, the EOF(cancel) lost up to limit-1 times, and whichever retransmission arrives cancels the receiver with CancelReceived (C10_cancel_then_lost_eofs). And on the receiving side (Props/C10r.lean): the EOF(cancel) and the two transmissions that follow - the ACK of it, the Finished PDU carrying the cancel condition - put any live acknowledged receiver with no delayed check pending in the starting state of the Finished retransmission loop (cancel_eof_state, peer_cancel_enters_wait), so the Finished PDU or its ACK lost up to limit-1 times still ends both transactions with the cancel condition (C10_peer_cancel_then_lost_finisheds). And when the receiving user cancels (Props/C10s.lean): the Cancel.request and the transmission that follows put any live acknowledged receiver with nothing else to transmit in that same starting state (recv_cancel_enters_wait), so the Finished PDU carrying CancelReceived, or its ACK, lost up to limit-1 times still ends both transactions with CancelReceived (C10_recv_cancel_then_lost_finisheds). At the limit the transactions end by C10_send_cancel_ends / C10_recv_cancel_ends. Tie to the code: recv/send engines with cancel injected before/after every PDU."),
     level_note=RECV_SEND_NOTE + " Both-sides-end over a real link (two daemons) is exercised by the daemon engine (C02/C11) when registered; here each side is proved separately.",
     rule=("daemon engine (two real daemons): in every third multi-transaction scenario one acknowledged six-segment transfer is cancelled through its daemon (UserPrimitive::Cancel) right after its Put - oracles daemon_cancel (the sender reports CancelReceived or, when the receiver had completed before the cancel took effect, has at least transmitted its EOF(Cancel received)), daemon_cancel_no_file, daemon_cancel_ends; or it is cancelled at the RECEIVING daemon 100 ms after the Put while every EOF of that sender stays on the link for 450 ms - oracle daemon_cancel_recv (receiver and sender both report CancelReceived, nothing under the destination name, both ended); the other transactions must be unaffected (C11 others_unaffected). recv + send engines as in C04/C07: one history in three contains a user request at a random position (cancel / suspend-resume / EOF(cancel) from the peer / report), "
           "followed by losses of the handshake PDUs (wind-down rounds without answers) or the ACK at a random round. Oracles no_partial (filestore listing before/after every "
